@@ -105,7 +105,7 @@ def main():
             pk = capgen.merge(rng, [pk, s2.packets])
             keylog += s2.keylog
         hist["version=" + ver] += 1
-        meta = (i % 4 == 1)
+        meta = (i % 5 == 1)          # period 5 against the six kinds of capture: every kind meets both option sets
         f, dg = check_cuts(impl, pk, keylog, ["-a"] if meta else [], ck, hist, "%s 0x%04X #%d" % (ver, code, i), model=m, opts=options_arg(meta=meta))
         fails += f
         disagreements += dg
@@ -133,7 +133,7 @@ def main():
             conns.append(pool.tls_conn(rng, table, h2, idx=2, nrec=3, reclen=50))
         case = pool.build(rng, conns, h2)
         hist["capture=quic%s" % ("+tls" if i % 2 else "")] += 1
-        meta = (i % 4 == 2)
+        meta = (i % 3 == 2)
         f, dg = check_cuts(impl, case.packets, case.keylog, ["-a"] if meta else [], ck, hist, "QUIC #%d" % i, model=None)
         fails += f
         if m:
